@@ -51,7 +51,7 @@ const TUPLE_SLICE: NativeMetaBuilder = NativeMetaBuilder::method("slice", Arity:
   .with_stack();
 
 const TUPLE_COLLECT: NativeMetaBuilder = NativeMetaBuilder::fun("collect", Arity::Fixed(1))
-  .with_params(&[ParameterBuilder::new("iter", ParameterKind::Object)])
+  .with_params(&[ParameterBuilder::new("iter", ParameterKind::Iter)])
   .with_stack();
 
 pub fn declare_tuple_class(hooks: &GcHooks, module: Ref<Module>) -> StdResult<()> {
